@@ -420,6 +420,39 @@ def check_property(pid, tier="quick", seed=0):
     with ThreadPoolExecutor(max_workers=4) as ex:
         list(ex.map(lambda r: r.run(), live))
 
+    # ---- stability filter: a failed obligation of a `home` function is reported only if it fails
+    # again under two other solver seeds with a doubled resource limit.  A real violation fails under
+    # every seed (the verifier is sound); a proof that merely became unstable after an unrelated edit
+    # is reported as undecided, never as a violation.
+    def fkey(f):
+        return (f["fn"], tuple(f["labels"]) if f["labels"] else ("builtin", f["kind"], f["line"]))
+    unstable_notes = []
+    for r in live:
+        home_fails = [f for f in r.failures if f.get("fn_info") and f["fn_info"]["mode"] == "home"]
+        if r.compile_errors or not home_fails:
+            continue
+        stable = {fkey(f) for f in home_fails}
+        for alt in (1, 2):
+            r2 = UnitRun(r.name, tier, rlimit=(2 * (r.rlimit or 40)), extra_args=["--smt-option", f"smt.random_seed={(seed + 7919 * alt) % 1000 + 1}"], use_cache=use_cache)
+            r2.asm, r2.text, r2.path = r.asm, r.text, r.path
+            r2.regions, r2.lines, r2.fn_ranges = r.regions, r.lines, r.fn_ranges
+            r2.tokens_checked = getattr(r, "tokens_checked", 0)
+            try:
+                r2.run()
+            except Exception as e:    # timeout etc.: keep the first verdict
+                break
+            if r2.compile_errors:
+                break
+            stable &= {fkey(f) for f in r2.failures if f.get("fn_info") and f["fn_info"]["mode"] == "home"}
+            if not stable:
+                break
+        dropped = [f for f in home_fails if fkey(f) not in stable]
+        if dropped:
+            r.failures = [f for f in r.failures if not (f.get("fn_info") and f["fn_info"]["mode"] == "home" and fkey(f) not in stable)]
+            unstable_notes.append(f"unit {r.name}: {len(dropped)} obligation(s) failed under the default solver seed but verified under another "
+                                  f"(unstable proof, e.g. {dropped[0]['fn']}: {dropped[0]['message']}): not reported as violations")
+    problems += unstable_notes
+
     violations = []      # definite: (inf, failure rec, unit run)
     suspects = []        # failures in functions whose proof scaffolding lost an anchor
     strict_fail = []
@@ -455,6 +488,10 @@ def check_property(pid, tier="quick", seed=0):
         failed_by_fn = {}
         for f in r.failures:
             failed_by_fn.setdefault(f["fn"], []).append(f)
+        if failed_by_fn.get(None):
+            # a failed obligation that belongs to no function / constant under contract: never silently dropped
+            problems.append(f"unit {r.name}: {len(failed_by_fn[None])} failed obligation(s) outside any function under contract "
+                            f"(first: {failed_by_fn[None][0]['message']} at line {failed_by_fn[None][0]['line']})")
         for name, infos in r.asm.funcs.items():
             for inf in infos:
                 if inf["mode"] == "canary":
@@ -477,7 +514,9 @@ def check_property(pid, tier="quick", seed=0):
                     continue
                 st = r.fn_status.get(name)
                 if st is None and inf.get("bodyless"):
-                    continue   # trait method declaration: a contract without a body carries no obligation of its own
+                    continue
+                if st is None and inf.get("const"):
+                    st = [{"success": not failed_by_fn.get(name), "time_us": 0}]   # trait method declaration: a contract without a body carries no obligation of its own
                 if st is None:
                     problems.append(f"function {name} ({inf['path']}) does not appear in the verifier's function breakdown")
                     continue
